@@ -152,6 +152,7 @@ inductive Cmd where
   | ld (oid prog : String)
   | dump
   | call (o : Origin) (oid fn : String)
+  | callT (isArray : Bool) (ts : List Target) (fn : String)
   | cold
   | evict (oid fn : String)
 
@@ -166,6 +167,11 @@ def parseOrigin : String → Option Origin
   | "hb" => some .hb
   | _ => none
 
+def parseTarget (e : String) : Target :=
+  if e.startsWith "=" then .path (((e.drop 1).toString.splitOn "/").getLastD "")
+  else if e == "0" then .other
+  else .obj e
+
 def parseCase (lines : List String) : Parsed :=
   let p := lines.foldl (fun (p : Parsed) line =>
     match toks line with
@@ -177,6 +183,8 @@ def parseCase (lines : List String) : Parsed :=
     | "names" :: _ => p
     | ["ld", oid, prog] => { p with cmds := .ld oid ((prog.splitOn "/").getLastD prog) :: p.cmds }
     | "dump" :: _ => { p with cmds := .dump :: p.cmds }
+    | ["call", "coa", elems, fn] => { p with cmds := .callT true ((elems.splitOn ",").map parseTarget) fn :: p.cmds }
+    | ["call", "cos", elem, fn] => { p with cmds := .callT false [parseTarget elem] fn :: p.cmds }
     | ["call", o, oid, fn] =>
       match parseOrigin o with
       | some o => { p with cmds := .call o oid fn :: p.cmds }
@@ -237,28 +245,35 @@ def runModel (body : List String) : List String :=
     -- ranks, the program ids and the list of dumped programs / objects are taken
     let w := buildWorld p d
     let fresh := (d.names.foldl (fun m x => max m x.2) 0) + 1000
+    let createKey := (d.key "create").getD (fresh + 7)
+    let progOf (n : String) : Option Nat := w.progs.findIdx? (·.name == n)
     let s := p.cmds.foldl (fun (s : St) c =>
       match c with
-      | .ld oid _ => if d.failed.contains oid then { s with out := Ev.line s!"ld {oid} !fail" :: s.out } else s
+      | .ld oid pn =>
+        if d.failed.contains oid then { s with out := Ev.line s!"ld {oid} !fail" :: s.out }
+        else match progOf pn with
+          | some pi => { loadObj w createKey (w.progs.length + 1) { s with callOrigin := 0 } pi with labels := (oid, pi) :: s.labels }
+          | none => { s with out := Ev.line s!"bad-prog {pn}" :: s.out }
       | .dump =>
-        let objs := d.objs.map fun (oid, pn) =>
-          let pi := (w.progs.findIdx? (·.name == pn)).getD w.progs.length
-          ({ oid, prog := pi, vars := List.replicate ((w.progs[pi]?.map (·.nvt)).getD 0) 0 } : Obj)
         let lines := d.lines.map fun l =>
           match toks l with
           | "tbl" :: name :: _ =>
             match w.progs.find? (·.name == name) with
             | some P =>
-              -- a program compiled again (load of a file that so far was only inherited) has a new id and the
-              -- same table: the id is the environment's, taken from the dumped line
+              -- a program compiled again has a new id and the same table: the id is the environment's, taken from
+              -- the dumped line
               renderTbl w { P with id := ((parseTbl l).map (·.id)).getD P.id }
             | none => s!"tbl {name} not-in-case"
           | _ => l
-        { s with objs, out := (lines.map Ev.line).reverse ++ s.out }
+        { s with out := (lines.map Ev.line).reverse ++ s.out }
       | .call o oid fn =>
         if o == .hb then doHeartBeat w s oid fn else
         match d.key fn with
         | some k => doCall w s o oid fn k
+        | none => { s with out := Ev.line s!"bad-name {fn}" :: s.out }
+      | .callT isArray ts fn =>
+        match d.key fn with
+        | some k => doCallTargets w createKey progOf s isArray ts fn k
         | none => { s with out := Ev.line s!"bad-name {fn}" :: s.out }
       | .cold => { s with cache := Cache.empty }
       | .evict oid fn =>
@@ -293,6 +308,7 @@ def compareEvs (exp obs : List Spec.Ev) : List String :=
         let kind :=
           match e, o with
           | .ret "!no", .run .. => "visibility"       -- a refused call ran
+          | .ret "0", .run .. => "visibility"
           | .run .., .ret "!no" => "call-lost"        -- an allowed call did not run
           | .run .., .ret "swept" => "call-lost"
           | .vars .., .vars .. => "variables"
@@ -351,21 +367,26 @@ def runJudge (body : List String) : List String :=
   let p := parseCase input
   let d := parseDump impl
   let crashes := impl.filter (fun l => l.startsWith "crash" || l.startsWith "sanitizer" || l.startsWith "badcmd")
+  -- a case whose graph names a program it does not define is not a case (the shrinker must not produce one)
+  let dangling := p.graph.foldl (fun acc P =>
+    acc ++ (P.inherits.filter (fun i => p.graph.all (·.name != i.parent))).map (fun i => s!"{P.name} inherits undefined {i.parent}")) []
   if !p.bad.isEmpty then p.bad.map (fun l => s!"bad malformed-case {l}")
+  else if !dangling.isEmpty then dangling.map (fun l => s!"bad malformed-case {l}")
   else if !crashes.isEmpty then crashes.map (fun l => s!"bad crash {l}")
   else if !d.failed.isEmpty then d.failed.map (fun o => s!"bad load-failed {o}")
   else
     let g := p.graph
     -- expected events from the specification
-    let (_, expRev) := p.cmds.foldl (fun (st : List Spec.SObj × List Spec.Ev) c =>
+    let toST (t : Target) : Spec.STarget := match t with | .obj l => .obj l | .path n => .path n | .other => .other
+    let st := p.cmds.foldl (fun (st : Spec.SSt) c =>
       match c with
       | .ld oid pn =>
         let pi := g.indexOf pn
-        (st.1 ++ [{ oid, prog := pi, vars := List.replicate (Spec.size g (g.length + 1) pi) 0 }], st.2)
-      | .call o oid fn =>
-        let (evs, objs) := Spec.specCall g st.1 o.str oid fn
-        (objs, evs.reverse ++ st.2)
-      | _ => st) ([], [])
+        { Spec.specLoad g (g.length + 1) st pi with labels := (oid, pi) :: st.labels }
+      | .call o oid fn => Spec.specCall g st o.str oid fn
+      | .callT isArray ts fn => Spec.specCallTargets g st isArray (ts.map toST) fn
+      | _ => st) {}
+    let expRev := st.evs
     let obs := impl.filterMap parseEv
     let v1 := compareEvs expRev.reverse obs
     let w := d.world
